@@ -154,6 +154,11 @@ func (fc *FnCtx) queryMode(o *Oblig, instancesOnly bool) string {
 		}
 	}
 	sb.WriteString(fc.eng.specDefsText(fc.usedSpecs, opq))
+	if fc.c != nil && fc.c.SeqExt {
+		// byte sequences are extensional: two arrays that agree on [o, o+n) give the same bytes
+		sb.WriteString("(declare-fun seqdiff ((Array Int (_ BitVec 8)) (Array Int (_ BitVec 8)) Int Int) Int)\n")
+		sb.WriteString("(assert (forall ((a (Array Int (_ BitVec 8))) (b (Array Int (_ BitVec 8))) (o Int) (n Int)) (! (=> (or (not (and (<= o (seqdiff a b o n)) (< (seqdiff a b o n) (+ o n)))) (= (select a (seqdiff a b o n)) (select b (seqdiff a b o n)))) (= (seq a o n) (seq b o n))) :pattern ((seq a o n) (seq b o n)))))\n")
+	}
 	anc := fc.anc[o.blk]
 	inScope := func(b int) bool { return o.blk == -2 || b == -1 || b == o.blk || anc[b] }
 	for _, d := range fc.decls {
@@ -634,7 +639,13 @@ func replaceVar(body, v, t string) string {
 func (fc *FnCtx) loopCounterTerms(b int) []Term {
 	var out []Term
 	seen := map[string]bool{}
-	for _, li := range fc.loops {
+	var heads []int
+	for h := range fc.loops {
+		heads = append(heads, h)
+	}
+	sort.Ints(heads) // deterministic query text: outer loops first
+	for _, h := range heads {
+		li := fc.loops[h]
 		if !li.body[b] {
 			continue
 		}
